@@ -98,6 +98,8 @@ def gen_names(rng, n, hostile=True, alphabet=None):
 
 def gen_content(rng, size=None):
     n = rng.pick(SIZES) if size is None else size
+    if size is None and rng.chance(1, 40):
+        n = rng.pick([1 << 20, (1 << 20) - 1, (1 << 20) + 1, (2 << 20) + 5])  # at and around 1 MiB, above 2 MiB
     if n == 0:
         return b""
     k = rng.below(3)
@@ -479,7 +481,27 @@ def _c04_worker(args):
                     sshfault = rng.pick(["kill-before", "run-then-kill", "partial-out-then-kill", "partial-in-then-kill", "partial-out-then-kill", "partial-in-then-kill"]) + ":/" + victim
                 label["ssh_client_fault"] = sshfault
                 cnt("runs_with_a_failing_ssh_client[%s]" % sshfault.split(":")[0])
-            r = run_case(ow, trace=trace, delay=delay, fail=fail, env_extra={"SSH_STANDIN_FAULT": sshfault} if sshfault else None)
+            unreadable = None
+            subdirs = sorted({os.path.dirname(p) for p in srcm if os.path.dirname(p) and re.fullmatch(r"[A-Za-z0-9._/-]+", os.path.dirname(p))})
+            if mode == 7 and direction != "pull" and subdirs and not sshfault and not fail and not case.get("src_symlink") and not case.get("dst_symlink"):
+                # part of the source cannot be listed by the invoking user (the checks run as root, which ignores mode
+                # bits, so this one run is made as `nobody`): the listing is incomplete, and exit status 0 would claim
+                # a mirror that was never made
+                unreadable = rng.pick(subdirs)
+                subprocess.run(["chown", "-R", "65534:65534", ow.root], capture_output=True)
+                # (chown touches every ctime: the "before" snapshots are taken again, as root, before the mode change)
+                srcm, src0 = ow.meta("src")
+                dstm, dst0 = ow.meta("dst")
+                out0 = outside_snapshot(ow)
+                os.chmod(os.path.join(ow.src, unreadable), 0)
+                label["unlistable_source_directory"] = unreadable
+                cnt("runs_as_nobody_with_an_unlistable_source_directory")
+                env_n = ow.env()
+                env_n = shim_env(env_n, log=trace)
+                r = run(["--reuid=65534", "--regid=65534", "--clear-groups", COPIA] + ow.argv(), env_n, cwd=ow.home, timeout=90, copia="setpriv")
+                os.chmod(os.path.join(ow.src, unreadable), 0o755)
+            else:
+                r = run_case(ow, trace=trace, delay=delay, fail=fail, env_extra={"SSH_STANDIN_FAULT": sshfault} if sshfault else None)
             if r.timed_out:
                 res["inconclusive"] += 1
                 ow.destroy()
